@@ -63,6 +63,23 @@ fn check_state(ctx: &mut Ctx, w: &World, chain: &mut PatchChain, r: &Ref, hist: 
         ctx.out.oracle(chain.contains_file(name) == want.is_some(), "chain-contains-wrong", &format!("{hist}: contains {name}"));
         if want.is_some() && r.entries.iter().filter(|e| w.has[e.0][ni]).count() > 1 { ctx.out.nontrivial(format!("{hist}{ni}").as_bytes()); }
     }
+    // Model.C08Read: the file map (first archive in chain order that lists the key) and the listing (union, once, sorted)
+    {
+        let chain_ids: Vec<usize> = info.iter().filter_map(|ci| w.paths.iter().position(|p| *p == ci.path)).collect();
+        // names ranked by their string order, so that the model's numeric order is the implementation's string order
+        let mut ranked: Vec<usize> = (0..NAMES.len()).collect(); ranked.sort_by_key(|i| NAMES[*i]);
+        let rank = |ni: usize| ranked.iter().position(|r| *r == ni).unwrap_or(99);
+        let lists: Vec<String> = chain_ids.iter().map(|a| { let v: Vec<String> = (0..NAMES.len()).filter(|ni| w.has[*a][*ni]).map(|ni| rank(ni).to_string()).collect(); if v.is_empty() { "e".to_string() } else { v.join(",") } }).collect();
+        let lists_s = if lists.is_empty() { "-".to_string() } else { lists.join(";") };
+        for (ni, name) in NAMES.iter().enumerate() {
+            let imp = chain.find_file_archive(name).and_then(|p| info.iter().position(|ci| ci.path == p));
+            ctx.out.case(&format!("c08map {} {}", lists_s, rank(ni)), &imp.map(|i| i.to_string()).unwrap_or("none".into()));
+        }
+        if let Ok(l) = chain.list() {
+            let got: Vec<String> = l.iter().filter(|f| !f.name.starts_with('(')).map(|f| NAMES.iter().position(|n| *n == f.name).map(|ni| rank(ni).to_string()).unwrap_or("?".into())).collect();
+            ctx.out.case(&format!("c08list {}", lists_s), &(if got.is_empty() { "-".to_string() } else { got.join(",") }));
+        }
+    }
     // listing = union of names
     if let Ok(l) = chain.list() {
         let mut got: Vec<String> = l.iter().map(|f| f.name.clone()).filter(|n| !n.starts_with('(')).collect(); got.sort();
@@ -191,6 +208,26 @@ pub fn run(ctx: &mut Ctx) {
             match ctx.rng.below(10) { 0..=4 => Op::Add(a, p), 5 | 6 => Op::Prio(a, p), 7 | 8 => Op::Rm(a), _ => Op::Clear } }).collect();
         run_history(ctx, &w, &h);
     }
+    // names that differ ONLY in the case of a non-ASCII letter are different files (the format folds ASCII letters): each is
+    // read from the archive that holds it, whatever the priorities (defect D69 before its repair)
+    {
+        let dir = tempfile::tempdir().expect("tmp");
+        let lo = dir.path().join("lo.mpq"); let hi = dir.path().join("hi.mpq");
+        let ok = ArchiveBuilder::new().listfile_option(ListfileOption::Generate).add_file_data(b"lower".to_vec(), "ü.txt").add_file_data(b"accent".to_vec(), "Data\\É.bin").build(&lo).is_ok()
+            && ArchiveBuilder::new().listfile_option(ListfileOption::Generate).add_file_data(b"UPPER".to_vec(), "Ü.txt").build(&hi).is_ok();
+        if ok {
+            for (plo, phi) in [(0, 10), (10, 0), (5, 5)] {
+                let mut c = PatchChain::new();
+                if c.add_archive(&lo, plo).is_err() || c.add_archive(&hi, phi).is_err() { continue; }
+                for (name, want) in [("ü.txt", Some(&b"lower"[..])), ("Ü.txt", Some(&b"UPPER"[..])), ("data/É.BIN", Some(&b"accent"[..])), ("Data\\é.bin", None)] {
+                    let got = c.read_file(name).ok();
+                    ctx.out.oracle(got.as_deref() == want, "chain-read-wrong-version", &format!("archives lo(ü.txt, Data\\É.bin)@{plo} hi(Ü.txt)@{phi}: read {name} -> {:?}, want {:?}", got.as_ref().map(|d| String::from_utf8_lossy(d).to_string()), want.map(|d| String::from_utf8_lossy(d).to_string())));
+                    ctx.out.oracle(c.contains_file(name) == want.is_some(), "chain-contains-wrong", &format!("non-ASCII case: contains {name}"));
+                }
+                ctx.out.stat("c08.nonascii_case");
+            }
+        } else { ctx.out.stat("c08.nonascii_build_failed"); }
+    }
     // parallel construction = sequential construction
     for _ in 0..(if ctx.thorough { 300 } else { 40 }) {
         let k = ctx.rng.range(0, 4) as usize;
@@ -290,6 +327,33 @@ pub fn run(ctx: &mut Ctx) {
             { let mut m = good.clone(); let p = m.len() - 1 - ctx.rng.below(((m.len() - 68).max(1)) as u64) as usize; m[p] ^= 0x20; variants.push(("payload byte altered", m, false)); }
             { let mut m = good.clone(); m[24] ^= 1; variants.push(("base digest altered", m, false)); }
             { let mut m = good.clone(); m[40] ^= 1; variants.push(("result digest altered", m, false)); }
+            // a patch entry that does not parse at all: never skipped in favour of the base (defect D68 before its repair)
+            { let mut m = good.clone(); m[0] ^= 0x01; variants.push(("patch signature altered", m, false)); }
+            { let mut m = good.clone(); m[16] ^= 0x01; variants.push(("digest block signature altered", m, false)); }
+            { let m = good[..40.min(good.len())].to_vec(); variants.push(("patch cut inside its header", m, false)); }
+            // three levels: base, a patch base -> mid (priority 50), a patch mid -> new (priority 100); with the lower patch intact
+            // the answer is `new`, with the lower patch unparseable or altered it is an error (never `mid`, `base` or anything unverified)
+            if k % 2 == 0 {
+                let mlen = ctx.rng.range(1, 200) as usize; let mid = ctx.rng.bytes(mlen);
+                let p1 = patch_bytes("copy", &base, &mid, &mid, mid.len() as u32);
+                let p2 = patch_bytes("copy", &mid, &new, &new, new.len() as u32);
+                for (what1, p1v, ok1) in [("intact", p1.clone(), true), ("signature altered", { let mut m = p1.clone(); m[0] ^= 1; m }, false), ("result digest altered", { let mut m = p1.clone(); m[41] ^= 4; m }, false)] {
+                    let (Some(bp), Some(p1p), Some(p2p)) = (plain(&format!("b3_{k}.mpq"), &base), plain(&format!("p3a_{k}.mpq"), &entry(&p1v)), plain(&format!("p3b_{k}.mpq"), &entry(&p2))) else { ctx.out.stat("c08.chain3.build_failed"); continue };
+                    if !mark(&p1p) || !mark(&p2p) { ctx.out.stat("c08.chain3.mark_failed"); continue; }
+                    let mut chain = PatchChain::new();
+                    if chain.add_archive(&p2p, 100).is_err() || chain.add_archive(&bp, 0).is_err() || chain.add_archive(&p1p, 50).is_err() { continue; }
+                    let got = std::panic::catch_unwind(std::panic::AssertUnwindSafe(|| chain.read_file(NAME)));
+                    let imp_ans = match &got { Ok(Ok(d)) => format!("ok {}", if d.is_empty() { "-".to_string() } else { hex(d) }), Ok(Err(_)) => "err".to_string(), Err(_) => "panic".to_string() };
+                    ctx.out.case(&format!("c08pread 0 p:{};p:{};d:{}", hex(&p2), hex(&p1v), hex(&base)), &imp_ans);
+                    let desc = format!("three-level chain, lower patch {what1}");
+                    match got {
+                        Ok(Ok(d)) => ctx.out.oracle(ok1 && d == new, "chain-returns-unverified-bytes", &format!("{desc}: Ok with {} bytes (new {}, mid {}, base {})", d.len(), new.len(), mid.len(), base.len())),
+                        Ok(Err(_)) => ctx.out.oracle(!ok1, "chain-patch-not-applied", &format!("{desc}: error")),
+                        Err(_) => ctx.out.oracle(false, "patch-panic", &desc),
+                    }
+                    ctx.out.stat(&format!("c08.chain3.{}", what1.replace(' ', "_")));
+                }
+            }
             for (what, ptch, should_apply) in variants {
                 let (Some(bp), Some(pp)) = (plain(&format!("b{k}.mpq"), &base), plain(&format!("p{k}.mpq"), &entry(&ptch))) else { ctx.out.stat("c08.chainpatch.build_failed"); continue };
                 if !mark(&pp) { ctx.out.stat("c08.chainpatch.mark_failed"); continue; }
@@ -297,6 +361,7 @@ pub fn run(ctx: &mut Ctx) {
                 if chain.add_archive(&bp, 0).is_err() || chain.add_archive(&pp, 100).is_err() { ctx.out.stat("c08.chainpatch.add_failed"); continue; }
                 let got = std::panic::catch_unwind(std::panic::AssertUnwindSafe(|| chain.read_file(NAME)));
                 let desc = format!("{} patch entry over a {blen}-byte base, {what}", if bsd { "BSD0" } else { "COPY" });
+                let imp_ans = match &got { Ok(Ok(d)) => format!("ok {}", if d.is_empty() { "-".to_string() } else { hex(d) }), Ok(Err(_)) => "err".to_string(), Err(_) => "panic".to_string() };
                 match got {
                     Err(_) => ctx.out.oracle(false, "patch-panic", &desc),
                     Ok(Ok(d)) => { if should_apply { ctx.out.oracle(d == new, "chain-patch-not-applied", &format!("{desc}: got {} bytes (base {} / new {})", d.len(), blen, nlen)); if d == new { ctx.out.nontrivial(desc.as_bytes()); } }
@@ -304,6 +369,8 @@ pub fn run(ctx: &mut Ctx) {
                     Ok(Err(_)) => ctx.out.oracle(!should_apply, "chain-patch-not-applied", &format!("{desc}: error")),
                 }
                 ctx.out.stat(&format!("c08.chainpatch.{}", what.replace(' ', "_")));
+                // Model.C08Read.readFile on the same versions: patch entry on top (chain position 0), plain base below
+                ctx.out.case(&format!("c08pread 0 p:{};d:{}", hex(&ptch), hex(&base)), &imp_ans);
                 // the history goes on after a patched read: every later answer follows the chain as it is NOW (nothing kept
                 // from the earlier read) - re-prioritised below the base, back, removed, re-added, cleared
                 if should_apply {
